@@ -28,6 +28,7 @@ import (
 	"go.universe.tf/metallb/internal/config"
 	"go.universe.tf/metallb/internal/k8s"
 	"go.universe.tf/metallb/internal/k8s/controllers"
+	"go.universe.tf/metallb/internal/verifcfg"
 	vw "go.universe.tf/metallb/internal/verifworld"
 	v1 "k8s.io/api/core/v1"
 	discovery "k8s.io/api/discovery/v1"
@@ -844,9 +845,74 @@ func (s *sim) delete(i int) {
 }
 
 func (s *sim) setCluster(cl vw.ClusterSpec) {
+	old := s.cl
 	s.cl = cl
 	s.w.SetCluster(cl)
-	s.enqueue("pool")
+	// the pool reconciler is only woken by the events its filter lets through: creations and deletions always,
+	// updates of pools only when the generation moved (i.e. the spec changed), updates of namespaces only when
+	// their labels changed
+	wake := false
+	oldPools := map[string]vw.PoolSpec{}
+	for _, p := range old.Pools {
+		oldPools[p.Name] = p
+	}
+	seen := map[string]bool{}
+	for _, p := range cl.Pools {
+		seen[p.Name] = true
+		o, ok := oldPools[p.Name]
+		if !ok {
+			wake = true
+			continue
+		}
+		ocr, ncr := o.CR(), p.CR()
+		if reflect.DeepEqual(ocr.Spec, ncr.Spec) && reflect.DeepEqual(ocr.Labels, ncr.Labels) {
+			continue // no write, no event
+		}
+		ocr.Generation, ncr.Generation = 1, 1
+		if !reflect.DeepEqual(ocr.Spec, ncr.Spec) {
+			ncr.Generation = 2
+		}
+		if controllers.VerifPoolUpdatePasses(&ocr, &ncr) {
+			wake = true
+		} else {
+			s.tr.Class("pool-update-filtered")
+		}
+	}
+	for n := range oldPools {
+		if !seen[n] {
+			wake = true
+		}
+	}
+	oldNs := map[string]vw.NamespaceSpec{}
+	for _, n := range old.Namespaces {
+		oldNs[n.Name] = n
+	}
+	seenNs := map[string]bool{}
+	for _, n := range cl.Namespaces {
+		seenNs[n.Name] = true
+		o, ok := oldNs[n.Name]
+		if !ok {
+			wake = true
+			continue
+		}
+		ocr, ncr := o.CR(), n.CR()
+		if reflect.DeepEqual(ocr.Labels, ncr.Labels) {
+			continue
+		}
+		if controllers.VerifPoolUpdatePasses(&ocr, &ncr) {
+			wake = true
+		} else {
+			s.tr.Class("namespace-update-filtered")
+		}
+	}
+	for n := range oldNs {
+		if !seenNs[n] {
+			wake = true
+		}
+	}
+	if wake {
+		s.enqueue("pool")
+	}
 }
 
 func (s *sim) status(k string) []netip.Addr {
@@ -1001,6 +1067,14 @@ func (s *sim) atQuiescence(label string) {
 	s.restartJudge()
 	if s.viol != nil || !s.hasCfg {
 		return
+	}
+	// the configuration the controller runs with must be the one in the store, if that one is valid: a change that
+	// no reconcile picked up (an event filtered away, a reconcile that remembered the wrong thing) leaves it stale
+	if want, err := verifcfg.Config(s.cl, config.DontValidate); err == nil {
+		if have, err2 := verifcfg.Config(s.ctrlCl, config.DontValidate); err2 == nil && !reflect.DeepEqual(want.Pools, have.Pools) {
+			s.setViol(vw.Violationf("configuration-not-delivered", "%s: nothing is pending, the store holds a valid pool configuration and the controller still runs with a different one (store: %+v, controller: %+v)", label, s.cl.Pools, s.ctrlCl.Pools))
+			return
+		}
 	}
 	sh := s.statusHolders()
 	if s.j.C01 {
@@ -1505,6 +1579,14 @@ const ctrlRule = "1..4 disjoint pools from the tiny v4/v6 universe with policy a
 func TestVerifC01Ctrl(t *testing.T) {
 	vw.Run(t, vw.Options{Property: "C01", Engine: "controller", Rule: ctrlRule + "; exclusivity checked on Allocator.IPs after every handler invocation and on the statuses at every quiescence; non-trivial = >=2 services shared an address at some point", Assumptions: ctrlAssumptions},
 		func(rt *rapid.T) ctrlCase { return genCtrlCase(rt, ctrlGenOpts{Sched: true}) },
+		func(c ctrlCase, tr *vw.Trace) *vw.Violation { return runCtrl(c, tr, judgeSet{C01: true}) })
+}
+
+// The same with finite sequences of failing status writes and reads (a stale status left behind by a failed write
+// must not survive to quiescence next to another holder of the address).
+func TestVerifC01CtrlFaults(t *testing.T) {
+	vw.Run(t, vw.Options{Property: "C01", Engine: "controller-faults", Rule: ctrlRule + ", finite sequences of failing status writes and reads; exclusivity checked on Allocator.IPs after every handler invocation and on the statuses at every quiescence; non-trivial = >=2 services shared an address at some point", Assumptions: ctrlAssumptions},
+		func(rt *rapid.T) ctrlCase { return genCtrlCase(rt, ctrlGenOpts{Sched: true, Faults: true}) },
 		func(c ctrlCase, tr *vw.Trace) *vw.Violation { return runCtrl(c, tr, judgeSet{C01: true}) })
 }
 
